@@ -13,7 +13,7 @@ Not decided: numeric consequences of the layout (non-overlap) beyond the per-typ
 import re
 from engine import op_place, const_int
 from terms import TermBuilder, render
-from common import switch_info, arms_of, reach_from, fmt_key
+from common import switch_info, arms_of, reach_from, fmt_key, call_leaves
 from c01 import agg_fields
 from c08 import index_entries
 
@@ -64,7 +64,7 @@ def run(f, fixture, rep, cfg, tier):
     # ---- R2 ----------------------------------------------------------------------------------------
     sort = [c for c in fe.calls() if re.search(r"<impl \[T\]>::sort(_by|_by_key|_unstable_by|_unstable_by_key)?$", c.decl)]
     loop_next = [c for c in fe.calls() if c.decl == "std::iter::Iterator::next"]
-    okd = len(sort) == 1 and loop_next and all(fe.dominates(sort[0].bb, c.bb) for c in loop_next) and render(tb.term(sort[0].args[0])) == "actual_records"
+    okd = len(sort) == 1 and loop_next and all(fe.dominates(sort[0].bb, c.bb) for c in loop_next) and render(tb.term(sort[0].args[0])) == (fe.local_name(1) or "_1")
     rep.check(okd, "R2", "sort-dominates-layout", "the records are sorted before the layout loop", "from_entries: sort calls %s do not dominate the layout loop" % [c.decl for c in sort], fe.span)
     cmpok = False
     for cb in f.closures_of(fe):
@@ -74,6 +74,9 @@ def run(f, fixture, rep, cfg, tier):
                 a = [render(t.term(x)) for x in c.args]
                 p1, p2 = cb.local_name(2), cb.local_name(3)
                 cmpok = a == ["%s.tag" % p1, "%s.tag" % p2]
+        # sort_by_key / sort_unstable_by_key: the key is the entry's tag
+        if sort and re.search(r"_by_key$", sort[0].decl) and not cb.calls():
+            cmpok = cmpok or render(t.term({"k": "copy", "l": 0, "p": []})) == "%s.tag" % (cb.local_name(2) or "_2")
     rep.check(cmpok, "R2", "comparator", "the comparator orders by tag, ascending", "the sort comparator does not compare e1.tag with e2.tag", fe.span)
     # uniqueness per from_entries call site
     for (b, t_) in ((pd, tp), (f.one("SignatureHeaderBuilder::build"), None)):
@@ -138,13 +141,24 @@ def run(f, fixture, rep, cfg, tier):
                 ext = [c for c in calls if c.decl.endswith("extend_from_slice")]
                 rep.check(len(nul) == 1 and len(ext) == 1, "R3", "terminator|%s" % name, "%s: bytes followed by one NUL per string" % name,
                           "%s arm: %d NUL pushes, %d extends" % (name, len(nul), len(ext)), ap.span)
-    # the returned pad count is added to the recorded offset
+    # the returned pad count is added to the recorded offset: offset = len(store) taken before append() + what append() returned
     offs = []
+    leaves = []
     for bb in sorted(fe.reachable()):
         for st in fe.stmts(bb):
             if st["k"] == "assign" and st["lhs"]["p"] and any(isinstance(p, dict) and p.get("n") == "offset" for p in st["lhs"]["p"]):
-                offs.append(render(tb.term(st["rv"].get("o") or st["lhs"])))
-    ok = len(offs) == 2 and offs[0].startswith("i32(std::vec::Vec::<T, A>::len(buf[") is False and "Vec::<T, A>::len(buf[" in offs[0] and "i32(rpm::headers::header::IndexData::append(" in offs[1]
+                rv = st["rv"]
+                offs.append(render(tb.term(rv.get("o") or st["lhs"])))
+                calls_in = set()
+                for o in [rv.get(k2) for k2 in ("o", "a", "b") if rv.get(k2) is not None]:
+                    calls_in |= call_leaves(fe, o)
+                leaves.append((bb, calls_in))
+    all_calls = set().union(*[c for (_b, c) in leaves]) if leaves else set()
+    lens = [c for c in all_calls if c.decl.endswith("Vec::<T, A>::len")]
+    apps_ = [c for c in all_calls if c.decl.endswith("IndexData::append")]
+    last_has_append = bool(leaves) and any(c.decl.endswith("IndexData::append") for c in leaves[-1][1])
+    ok = (len(lens) == 1 and len(apps_) == 1 and last_has_append and fe.dominates(lens[0].bb, apps_[0].bb)
+          and render(tb.term(lens[0].args[0])).startswith("buf[") and not any(re.search(r"\b(Sub|Mul|Div|Rem|Shl|Shr)\w*\(", o) for o in offs))
     rep.check(ok, "R3", "offset-plus-pad", "offset = store length before the entry + the padding append() inserted", "record.offset assignments: %s" % [o[:90] for o in offs], fe.span)
     ni = f.one("header::IndexData::num_items")
     tn = {}
@@ -187,7 +201,7 @@ def run(f, fixture, rep, cfg, tier):
     call = [c for c in fe.calls() if c.decl.endswith("create_region_tag")]
     if rep.check(len(call) == 1, "R4", "region|call", "from_entries creates one region tag", "create_region_tag is called %d times" % len(call), fe.span):
         a = [render(tb.term(x)) for x in call[0].args]
-        ok = a[0] == "region_tag" and a[1] == "i32(std::vec::Vec::<T, A>::len(actual_records))" and a[2].startswith("i32(std::vec::Vec::<T, A>::len(buf[write:rpm::headers::header::IndexData::append(")
+        ok = a[0] == (fe.local_name(2) or "_2") and a[1] == "i32(std::vec::Vec::<T, A>::len(%s))" % (fe.local_name(1) or "_1") and a[2].startswith("i32(std::vec::Vec::<T, A>::len(buf[write:rpm::headers::header::IndexData::append(")
         rep.check(ok, "R4", "region|args", "region(tag, number of records, end of the laid-out store)", "create_region_tag is given %s" % [x[:80] for x in a], call[0].loc())
         # called after the layout loop, its data appended last, placed first in the index
         nxt = [c for c in fe.calls() if c.decl == "std::iter::Iterator::next"]
@@ -195,9 +209,18 @@ def run(f, fixture, rep, cfg, tier):
         apps = [c for c in fe.calls() if c.decl.endswith("IndexData::append") and fe.can_reach(call[0].bb, c.bb)]
         last = len(apps) == 1 and render(tb.term(apps[0].args[0])).startswith("rpm::headers::header::Header::<T>::create_region_tag(")
         ag = agg_fields(fe, "header::Header", tb)
-        first = ag is not None and ag[0]["index_entries"].startswith("vec![rpm::headers::header::Header::<T>::create_region_tag(") or (ag is not None and "create_region_tag(" in ag[0]["index_entries"][:90])
-        va = [c for c in fe.calls() if c.decl.endswith("Vec::<T, A>::append")]
-        okva = len(va) == 1 and render(tb.term(va[0].args[1])) == "actual_records" and render(tb.term(va[0].args[0])).startswith("vec![rpm::headers::header::Header::<T>::create_region_tag(")
+        ie = ag[0]["index_entries"] if ag is not None else ""
+        p1 = fe.local_name(1) or "_1"
+        REG = "rpm::headers::header::Header::<T>::create_region_tag("
+        # the index is [region entry] followed by all sorted records: `vec![region]` + append(records), or push(region) + extend/append(records)
+        first = ie.startswith("vec![" + REG) or ie.startswith("buf[write:std::vec::Vec::<T, A>::push(" + REG)
+        va = [c for c in fe.calls() if re.search(r"(Vec::<T, A>::append|Extend::extend|Vec::<T, A>::extend_from_slice)$", c.decl)]
+        okva = False
+        for c_ in va:
+            recv, src = render(tb.term(c_.args[0])), render(tb.term(c_.args[1]))
+            if src == p1 and (recv.startswith("vec![" + REG) or recv.startswith("buf[write:std::vec::Vec::<T, A>::push(" + REG) or recv.startswith("buf[")) and ie.rstrip("]").endswith("(%s)" % p1) or (src == p1 and ie.startswith("vec![" + REG)):
+                okva = True
+        okva = okva and len(va) == 1
         rep.check(after and last and first and okva, "R4", "region|placement", "region entry first in the index, its data last in the store, created after layout",
                   "region placement: after-layout=%s data-last=%s index-first=%s append-order=%s" % (after, last, first, okva), fe.span)
 
@@ -251,6 +274,8 @@ def run(f, fixture, rep, cfg, tier):
         c = got[1]
         # guarded by a switch whose discriminee is the matching condition
         guard = None
+        guard_place = None
+        pl = None
         for sb in sorted(pd.reachable()):
             t = pd.term(sb)
             if t["t"] != "switch":
@@ -259,6 +284,7 @@ def run(f, fixture, rep, cfg, tier):
                 if pd.dominates(s, c.bb) and pd.pred(s) == [sb] and not pd.dominates(c.bb, fe_call[0].bb if fe_call else c.bb):
                     pl = op_place(t["d"])
                     guard = render(tp.term(pl)) if pl is not None else None
+                    guard_place = pl
         if name == "LargeFiles":
             ok = guard is not None and guard.startswith("Gt(") and ("4294967295" in guard or "u32::MAX" in guard)
         else:
@@ -275,6 +301,14 @@ def run(f, fixture, rep, cfg, tier):
                             if st["k"] == "assign" and st["rv"]["r"] == "use" and st["rv"]["o"].get("k", {}).get("s") == "true" and not st["lhs"]["p"] and (pd.local_name(st["lhs"]["l"]) or "").startswith("uses_file_cap"):
                                 raised = True
             ok = ok and raised
+            if not ok and pl is not None:
+                # spelled with an iterator: self.files.values().any(|entry| entry.caps.is_some())
+                gt = tp.term(guard_place) if guard_place is not None else None
+                if gt is not None and gt[0] == "call" and gt[1].endswith("Iterator::any") and len(gt[2]) == 2 and "self.files" in render(gt[2][0]):
+                    from idioms import _closure_ret
+                    ret, pn = _closure_ret(f, gt[2][1])
+                    rr = render(ret) if ret is not None else ""
+                    ok = re.fullmatch(r"std::option::Option::<T>::is_some\(%s(\.1)?\.caps\)" % re.escape(pn or "?"), rr) is not None
         rep.check(ok, "R7", "rpmlib|%s|condition" % name, "rpmlib(%s) is required exactly when the feature is used" % name,
                   "rpmlib(%s) is guarded by %s" % (name, (guard or "nothing")[:120]), c.loc())
     extra = set(rows) - {n for n, _v in RPMLIB_ALWAYS} - {v[0] for v in RPMLIB_CODEC.values()} - set(RPMLIB_COND)
